@@ -359,24 +359,9 @@ namespace smt
     {
         if (l0.vars.empty() && l1.vars.empty())
             return l0.known_term == l1.known_term;
-        else if (l0.vars.empty() && l1.vars.size() == 1)
-        {
-            const auto [lb, ub] = bounds(l1);
-            return rational(lb) <= l0.known_term && rational(ub) >= l0.known_term;
-        }
-        else if (l0.vars.size() == 1 && l1.vars.empty())
-        {
-            const auto [lb, ub] = bounds(l0);
-            return rational(lb) <= l1.known_term && rational(ub) >= l1.known_term;
-        }
-        else if (l0.vars.size() == 1 && l1.vars.size() == 1)
-        {
-            const auto [lb, ub] = distance(l0.vars.cbegin()->first, l1.vars.cbegin()->first);
-            const auto kt = l0.known_term - l1.known_term;
-            return lb + kt <= rational::ZERO && ub + kt >= rational::ZERO;
-        }
-        else
-            throw std::invalid_argument("not a valid comparison between real difference logic expressions..");
+        // the expressions may be equal iff zero is within the bounds of their difference..
+        const auto [lb, ub] = bounds(l0 - l1);
+        return lb <= 0 && ub >= 0;
     }
 
     bool idl_theory::propagate(const lit &p) noexcept
